@@ -58,7 +58,7 @@ class Walk:
         fifo = []          # queued commands in send order: {"ev": toks, "handle": h, "step": i} or {"shutdown": True}
         parked = {}        # client -> toks of the parked call
         for st in self.case.steps:
-            if st.kind in ("ack", "pure", "locks", "stress"):
+            if st.kind in ("ack", "pure", "locks", "stress", "b"):
                 continue
             if st.out.startswith("disabled") or st.out.startswith("hang") or not st.snap_text:
                 yield st, pre, pre, fifo, None
@@ -686,7 +686,16 @@ def mon_C17(case):
                 continue
             yield finding("C17", st, f"call panicked: {st.out}", f"C17/caller-panic/site={site}")
         if o[0] == "workerpanic":
-            yield finding("C17", st, f"the command worker died: {o[1]}", f"C17/worker-died/site={o[1]}")
+            cmd = "?"
+            if ex and "ev" in ex:
+                kind = ex["ev"][0]
+                if kind == "delete":
+                    cmd = "Delete"
+                elif kind == "upsert" and ex.get("saw_id") is not None:
+                    cmd = "UpdateWeight"
+                else:
+                    cmd = "PutWithTTL" if ev_ttl(ex["ev"]) is not None else "Put"
+            yield finding("C17", st, f"the command worker died executing {cmd}: {o[1]}", f"C17/worker-died/site={o[1]}/cmd={cmd}")
         if post is not pre:
             if pre["consumer"] and not post["consumer"] and not post["shut"]:
                 yield finding("C17", st, "the access-count consumer died", "C17/consumer-died")
@@ -809,6 +818,65 @@ _SEQ = {
 }
 
 
+def b_states(case):
+    """(step, pcs dict, snapshot) for every action of a Layer B case"""
+    from .trace import parse_snap
+    for st in case.steps:
+        if st.kind != "b" or st.impl.count(" | ") < 2:
+            continue
+        out, pcs, snap = st.impl[2:].split(" | ", 2)
+        yield st, out, dict(t.split("=", 1) for t in pcs.split()), snap
+
+
+def mon_B(case, pid):
+    """Property predicates that stay meaningful at action granularity (any thread may be in the middle of a call)."""
+    from .trace import parse_snap
+    mx = case.cfg.get("max", 0)
+    prev_total = 0
+    seen = set()
+    for st, out, pcs, snap_text in b_states(case):
+        locked = "wu=locked" in snap_text
+        snap = parse_snap(snap_text.replace("wu=locked", "wu=0"))
+        clients = {k: v for k, v in pcs.items() if k.startswith("c")}
+        if pid == "C01" and not locked:
+            total = snap["wu"]
+            if total < 0 and "neg" not in seen:
+                seen.add("neg")
+                yield finding("C01", st, f"total weight {total} is negative in the middle of {pcs}", "C01/total-negative/layerB")
+            if total > mx and total > prev_total:
+                cause = "UpdateWeight" if st.ev.startswith("B worker") and "UpdateWeight" not in seen and True else "other"
+                # the action that raised the total: the worker leaving kw.update is the known unchecked UpdateWeight
+                prev_pcs = getattr(mon_B, "_prev", {}).get(id(case), {})
+                cause = "UpdateWeight" if prev_pcs.get("w") == "kw.update" and st.ev.startswith("B worker") else ("Put" if prev_pcs.get("w") == "wu.add" else st.ev.split()[1])
+                yield finding("C01", st, f"total weight {total} exceeds the limit {mx} (observed between actions; worker at {pcs.get('w')})", f"C01/total-exceeds-limit/after={cause}")
+            prev_total = total
+        mon_B._prev = {id(case): pcs}
+        at_rest = pcs.get("w") in ("worker.recv", "worker.drain") and pcs.get("s") in ("sweep.begin", "sweep.end", "finished") and all(v == "client.idle" for v in clients.values()) and snap["q"] == 0
+        if pid == "C05" and at_rest and not locked and all(a != "pending" for a in snap["acks"]) and "C05" not in seen:
+            total = sum(e["weight"] for e in snap["kw"].values())
+            if total != snap["wu"]:
+                seen.add("C05")
+                yield finding("C05", st, f"at rest: total {snap['wu']} differs from the sum of charged weights {total}", "C05/total-differs-from-sum/layerB")
+            for i, e in snap["kw"].items():
+                held = snap["store"].get(e["key"])
+                if (held is None or held["id"] != i) and "C05" not in seen:
+                    seen.add("C05")
+                    yield finding("C05", st, f"at rest: id {i} (key {e['key']}) is charged but not held", "C05/charged-but-not-held/layerB")
+            for k, e in snap["store"].items():
+                if e["id"] not in snap["kw"] and "C05" not in seen:
+                    seen.add("C05")
+                    yield finding("C05", st, f"at rest: key {k} is held but not charged", "C05/held-but-not-charged/layerB")
+        if pid == "C15" and len(snap["stats"]) >= 10 and not snap["shut"] and "C15" not in seen:
+            in_flight = sum(1 for v in clients.values() if v == "pool.add")
+            hits, added, dropped = snap["stats"][0], snap["stats"][8], snap["stats"][9]
+            buffered = sum(len(b) for b in snap["pool"])
+            if hits != buffered + added + dropped + in_flight:
+                seen.add("C15")
+                yield finding("C15", st, f"hits {hits} != buffered {buffered} + delivered {added} + dropped {dropped} + reads between lookup and buffer {in_flight}", "C15/records-not-conserved/layerB")
+        if pid == "C02" and out.startswith("c") and ":value " in out:
+            pass
+
+
 PERSISTENT = ("C05", "C15", "C16")   # state predicates: once false they stay false; only the first step of a case names the cause
 
 
@@ -824,6 +892,13 @@ def _first_only(gen):
 
 def _dispatch(pid):
     def run(case):
+        if getattr(case, "layer_b", False):
+            yield from mon_B(case, pid)
+            if case.hang and pid in ("C13", "C15", "C18"):
+                st = case.steps[-1] if case.steps else None
+                what = "; ".join(n for n in case.notes if n.startswith("# hang") or n.startswith("# engine"))
+                yield {"property": pid, "step": st.index if st else 0, "what": f"under a controlled interleaving a thread did not reach its next schedule point: {what}", "signature": f"{pid}/hang"}
+            return
         if case.cfg_line:
             if pid in PERSISTENT:
                 yield from _first_only(_SEQ[pid](case))
